@@ -222,28 +222,40 @@ theorem C01_main_partial (lenient : Bool) (prog env : Tree) (h1 : OneStep prog) 
     (hr : adaptedRun lenient (fuel' + 2) prog env budget = some ro) : SameOutcome mo ro :=
   one_step_agree lenient prog env h1 budget fuel fuel' mo ro hm hr
 
-/-- **`C01_main_core_partial`**: whole programs on the *core fragment* (`Adapter.coreFragment`: all
-consensus adapters, operand lists read like the Python; a run that evaluates a `((X) …)` form or
-applies opcode 36 is outside the domain), every budget, any fuel on either side.  Whenever both
-machines terminate, they succeed with the same cost and the same tree, or both fail — unless the
-reference left the domain / hit the adapted stack limit (`BadR`) or the model hit an allocator or
-stack limit or an operator it does not implement (`BadM`).
+/-- **`C01_main_core_partial`**: whole programs, every budget, any fuel on either side.  The reference
+runs with all consensus adapters and operand lists read like the Python (`coreAd`); its *domain* is
+restricted by `Adapter.coreFragment` (a run that evaluates a `((X) …)` form or applies opcode 36 is
+outside) and by `Adapter.restrictOps unprovedOp` (so is a run that applies an operator whose
+`ref_op_eq_*` theorem is not proved yet: `concat`, `logand`, `logior`, `logxor`, any operator the
+reference treats as unknown — and the BLS/newer operators, which are outside C01 anyway).
+Whenever both machines terminate they succeed with the same cost and the same tree, or both fail —
+unless the reference left that domain or hit the adapted stack limit (`BadR`), or the model hit an
+allocator or stack limit or an operator it does not implement (`BadM`).  In particular the theorem is
+unconditional on every program whose run only applies `q a i c f r l x = >s sha256 substr strlen + - *
+/ divmod > ash lsh lognot not any all` and environment paths.
 
-The proof is a simulation between the two op-stack machines (`Lemmas/RefSim.lean`): both are
-described by the same continuation (a list of call frames) in one of two positions; the positions
-"value produced" (`Cons` / `cons`, and the end of the run) and "next operand" (`SwapEval` /
-`swap; eval`, through `eval_agree`: paths by `path_eq`, quotations, operator calls with their operand
-lists and the nil-terminator check) are proved.  **What is left** is the hypothesis `ApplyCase`: the
-`Apply` position, i.e. (i) `(a P E)` — `apply; eval` against `apply_op`'s immediate `eval_pair`,
-(ii) opcode 36 (outside the fragment), (iii) an ordinary operator: the two dispatch tables against each
-other, opcode by opcode, which is where the `ref_op_eq_*` theorems plug in (`OpAgree` is exactly the
-`StepAgree` needed there); for (iii) `ref_op_eq` for concat, logand, logior, logxor and the
-unknown-operator rule are still missing as well. -/
-theorem C01_main_core_partial (prog env : Tree) (budget fuel fuel' : Nat) (hA : ApplyCase (Ref.effBudget budget))
+Proof: a simulation between the two op-stack machines (`Lemmas/RefSim.lean`): both are described by
+the same continuation (a list of call frames) in one of two positions; "value produced"
+(`Cons` / `cons`, end of the run), "next operand" (`SwapEval` / `swap; eval`, through `eval_agree`:
+paths by `path_eq`, quotations, operator-call entry with the nil-terminator check) and "apply"
+(`(a P E)`: `apply; eval` against `apply_op`'s immediate `eval_pair`; ordinary operators: the two
+dispatch tables against each other, `dispatch_agree`, where the `ref_op_eq_*` theorems plug in).
+
+What is missing for the full `StatementFor true`: the five operator theorems named above (then
+`unprovedOp` shrinks to the operators outside C01), the `((X) …)` form (needs "operators do not look
+at the terminator of their argument list" for the lenient reading) and softfork guards. -/
+theorem C01_main_core_partial (prog env : Tree) (budget fuel fuel' : Nat)
     (ro : Res) (mo : Except Err (Nat × Val × Ctr))
     (hr : Ref.runWith coreAd fuel' prog env (Adapter.u64Budget budget) = some ro)
     (hm : modelRun fuel prog env budget = some mo) : RunOut ro mo :=
-  core_run_agree prog env budget fuel fuel' hA ro mo hr hm
+  core_run_agree prog env budget fuel fuel' ro mo hr hm
+
+/-- the domain is not empty: `(+ (q . 2) (* 1 (q . 3)))` in the environment `7` stays inside it and
+evaluates to `23` at cost 1840 -/
+example : Ref.runWith coreAd 100
+    (.pair (.atom [16]) (.pair (.pair (.atom [1]) (.atom [2]))
+      (.pair (.pair (.atom [18]) (.pair (.atom [1]) (.pair (.pair (.atom [1]) (.atom [3])) (.atom [])))) (.atom []))))
+    (.atom [7]) (Adapter.u64Budget 0) = some (.ok (1840, .atom [23])) := by rfl
 
 example : OneStep (.atom [0, 0, 11]) := trivial
 example : OneStep (.pair (.atom [1]) (.atom [7])) := rfl
